@@ -27,7 +27,7 @@ func init() {
 		Instr: []instrSpec{{File: "sync/spinlock.go", Funcs: nil, Hooks: "sync/zz_verif_hooks.go", Pkg: "sync"}},
 		Anchors: []string{"kernel/sync/spinlock.go", "kernel/sync/spinlock_amd64.s"},
 		Real:    []string{"sync.Spinlock.Acquire (compiled assembly archAcquireSpinlock, mode A)", "sync.Spinlock.TryToAcquire", "sync.Spinlock.Release", "the yieldFn seam", "spinlock_amd64.s source text interpreted instruction by instruction (mode B)"},
-		Stub:    []string{"CPUs = goroutine tasks holding a baton (mode A) / step tasks of an x86 subset interpreter (mode B)", "critical sections are harness code", "sequentially consistent memory (no store buffers)"},
+		Stub:    []string{"CPUs = goroutine tasks holding a baton (mode A) / step tasks of an x86 subset interpreter (mode B)", "critical sections are harness code", "memory: sequentially consistent in modes A/S, x86-TSO store buffers in mode B"},
 	})
 	addProp(&propSpec{
 		ID: "C08", Engine: "sync", Level: "exploration",
@@ -37,7 +37,7 @@ func init() {
 			{Name: "C08B", QuickRuns: 1000000000, QuickMs: 20000, ThoroughRuns: 1000000000, ThoroughMs: 480000},
 		},
 		Rule: "one evaluation = one simulated run: 2-16 tasks executing seeded programs of Acquire/TryToAcquire/critical-section/Release/Release-while-free under a seeded one-at-a-time scheduler (mode A: compiled code, preemption at the yieldFn seam, at inserted statement yields of spinlock.go and inside critical sections; mode B: the assembly source interpreted, preemption between any two instructions). Non-trivial = at least one contended acquisition (a task spun or a try-acquire failed while another task held the lock) and at least two tasks completed a critical section; distinct = distinct hash of (task count, context-switch sequence, operation outcomes).",
-		Assume: []string{"sequentially consistent interleavings only: true multi-core parallelism, x86-TSO store buffers and cache effects are not simulated; locked XCHG is assumed to give acquire/release ordering", "mode B interprets the instruction subset used by spinlock_amd64.s; an unknown instruction makes the check exit 2, never pass"},
+		Assume: []string{"modes A and S: sequentially consistent interleavings only; mode B: x86-TSO for the interpreted assembly - a plain store to the lock word stays in the CPU's store buffer (visible to that CPU only) until a locked instruction of that CPU or the memory system drains it; Go code of the lock (sync/atomic) counts as locked instructions", "mode B interprets the instruction subset used by spinlock_amd64.s (every TEXT symbol that a method of Spinlock merely wraps); an unknown instruction makes the check exit 2, never pass", "the package's default yield function is never the one that runs (DESIGN.md section 11)"},
 		Required: []string{"c08a.contended_acquire", "c08a.try_fail_while_held", "c08a.resume_free_acquired", "c08b.preempt_between_read_and_xchg", "c08b.xchg_lost_race"},
 	})
 
